@@ -261,17 +261,21 @@ def run_config(deps, applied_a1, add, stats):
             break
 
 
-def units_from_sql(effects, applied=()):
+def units_from_sql(effects, applied=(), dedup=True):
     """Execution order of the units, recognised from the statements
-    themselves (independent of signal payloads)."""
+    themselves (independent of signal payloads).  With dedup=False every
+    occurrence is reported (a unit whose SQL runs twice appears twice)."""
     order = []
     seen = set(('e',) + tuple(a) for a in applied)
 
     def emit(u):
-        if u not in seen:
+        if not dedup:
+            order.append(u)
+        elif u not in seen:
             seen.add(u)
             order.append(u)
     pending_create = None
+    pending_copy = ''
     for sql, _params in effects:
         s_ = sql.strip()
         if s_.startswith('CREATE TABLE "vc_extra"'):
@@ -282,14 +286,22 @@ def units_from_sql(effects, applied=()):
             emit(('m', 'vm', MIGRATIONS[1]))
         elif s_.startswith('CREATE TABLE "TEMP_TABLE"'):
             pending_create = s_
+            pending_copy = ''
+        elif s_.startswith('INSERT INTO "TEMP_TABLE"') and pending_create:
+            pending_copy = s_
         elif s_.startswith('ALTER TABLE "TEMP_TABLE" RENAME TO') and \
                 pending_create:
+            # a column is ADDED by this rebuild iff the new table has it
+            # and the copy statement does not read it from the old table
+            def added(col):
+                return col in pending_create and (
+                    dedup or col not in pending_copy)
             if '"va_item"' in s_:
-                if '"n1"' in pending_create:
+                if added('"n1"'):
                     emit(('e', 'va', 'a1'))
-                if '"n2"' in pending_create:
+                if added('"n2"'):
                     emit(('e', 'va', 'a2'))
-            elif '"vab_thing"' in s_ and '"n1"' in pending_create:
+            elif '"vab_thing"' in s_ and added('"n1"'):
                 emit(('e', 'vab', 'b1'))
             pending_create = None
     return order
